@@ -123,9 +123,11 @@ def make_program_class():
 
             r = self.rng
             what = r.choice(["op1"] * 9 + ["opn"] * 5 + ["struct"] * 2 + ["composite"] * 2 + ["measure", "resize", "kraus"])
+            live = self.live()
+            if live and self.crowded(live) and what not in ("op1", "measure", "resize"):
+                what = "measure" if r.random() < 0.4 else "op1"
             self.last_kind = what
             tracer.set_intent("valid")
-            live = self.live()
             if not live:
                 return
             try:
